@@ -220,6 +220,9 @@ class AdapterCutter(SingleEndModifier):
         """
         matches = []
         if self.action == "lowercase":  # TODO this should not be needed
+            # Work on a copy: the caller may still need the read as it was
+            # (PairedReverseComplementer tries both reads with both cutters)
+            read = read[:]
             read.sequence = read.sequence.upper()
         trimmed_read = read
         for _ in range(self.times):
